@@ -150,10 +150,27 @@ def den(x, env=None):
         x = x.results[0]
     if env is not None and id(x) in env:
         return env[id(x)]
+    if id(x) in _RT and "val" in _RT[id(x)]:
+        return _RT[id(x)]["val"]
     if not isinstance(x, OpResult):
         raise SkipCase()
     op = x.owner
+    from xdsl.dialects.builtin import IntegerType as _IT
+
+    if isinstance(x.type, _IT) and not isinstance(op, arith.ConstantOp):
+        w = x.type.width.data
+        _mask = (1 << w) - 1
+        ev = lambda v: den(v, env) & _mask
+        r = _den_op(op, x, ev)
+        return r & _mask
     ev = lambda v: den(v, env)
+    return _den_op(op, x, ev)
+
+
+def _den_op(op, x, ev):
+    from xdsl.dialects import arith, memref
+    from xdsl.dialects.builtin import IntegerAttr
+
     if isinstance(op, arith.ConstantOp):
         assert isinstance(op.value, IntegerAttr)
         return op.value.value.data
@@ -199,3 +216,45 @@ def rt_shape(m, d):
 
 def rt_stride(m, d):
     return _RT[id(m)]["strides"][d]
+
+
+def mk_ssa(den_, type=None):
+    from xdsl.utils.test_value import create_ssa_value
+
+    v = create_ssa_value(type)
+    _RT[id(v)] = dict(val=den_, keep=v)
+    return v
+
+
+def bv_const(v, w):
+    return int(v) & ((1 << w) - 1)
+
+
+def bv_shl(a, b, w):
+    m = (1 << w) - 1
+    return 0 if (b & m) >= w else ((a & m) << (b & m)) & m
+
+
+def bv_lshr(a, b, w):
+    m = (1 << w) - 1
+    return 0 if (b & m) >= w else (a & m) >> (b & m)
+
+
+def bv_or(a, b, w):
+    m = (1 << w) - 1
+    return (a | b) & m
+
+
+def bv_and(a, b, w):
+    m = (1 << w) - 1
+    return (a & b) & m
+
+
+def bv_eq(a, b, w):
+    m = (1 << w) - 1
+    return (a & m) == (b & m)
+
+
+def bv_ult(a, b, w):
+    m = (1 << w) - 1
+    return (a & m) < (b & m)
